@@ -35,6 +35,20 @@ THEOREMS = [
     'C13.step_set_ok', 'C13.step_gen_given', 'C13.step_gen_keeps', 'C13.step_refused_keeps', 'C13.step_reports_state',
     'C13.shift_history_index', 'C13.shift_history_keeps',
     'C13.resolveCenter_none', 'C13.resolveCenter_some', 'C13.resolveWidth_spec',
+    # source tie (lean/Proofs/C13_Source.lean; generated side: lean/Atomman/Generated/DislocationSource.lean)
+    'C13.gen_setShift_eq_model', 'C13.gen_defaultMults_eq_model', 'C13.gen_checkMults_eq_model',
+    'C13.gen_minMult_eq_model', 'C13.gen_sizeOf_eq_model', 'C13.gen_shiftGiven_eq_model', 'C13.gen_center_eq_model',
+    'C13.gen_width_eq_model', 'C13.gen_shapes_eq_model', 'C13.gen_boundaryGuard_eq_model', 'C13.gen_pbc_eq_model',
+    'C13.gen_boundaryPlanes_eq_model', 'C13.gen_planeShift_eq_model', 'C13.gen_planeBelow_eq_model',
+    'C13.gen_planeSetOutside_eq_model', 'C13.gen_cylinderOutside_eq_model', 'C13.gen_cylRadius_eq_model',
+    'C13.gen_cylIntersection_eq_model', 'C13.gen_tilt_eq_model', 'C13.gen_linearDisp_eq_model',
+    'C13.gen_array_formulas_eq_model', 'C13.gen_inLayer_eq_model', 'C13.gen_isDup_eq_model', 'C13.gen_disregSel_eq_model',
+    'C13.gen_signatures_pinned', 'C13.gen_monopole_statements_pinned', 'C13.gen_periodicarray_statements_pinned',
+    'C13.gen_cylinder_boundary_pinned', 'C13.gen_build_disl_array_pinned', 'C13.gen_disregistry_pinned',
+    # API level (argument handling of the generators, the call as a whole)
+    'C13.callSizes_eq_sizes', 'C13.call_refuses_bad_multipliers', 'C13.checkMultsRaw_some_iff', 'C13.callHead_ok_spec',
+    'C13.callHead_refused_shift_keeps_state', 'C13.callHead_bad_shape_after_shift', 'C13.callSizes_covers_minimum',
+    'C13.monopoleCall_spec',
 ]
 PARTIAL = {
     'array deletion count': 'array_deletion_count_partial proves that an accepted array has removed exactly `expected` atoms '
@@ -116,6 +130,968 @@ ASSUMPTIONS = [
 TRUSTED = ['numpy array arithmetic in the implementation run', 'the elastic solver (C12) as a black box supplying u',
            'System.supersize / System.wrap models of C04 / C05 (imported definitions, re-tied here through the reference and '
            'dislocation systems)', 'harness-side float recomputation of the decision margins']
+
+# ----------------------------------------------------------------------------------------
+# translator: option handling, multiplier arithmetic, boundary predicates regenerated from /repo's source
+# ----------------------------------------------------------------------------------------
+# What the generated file lean/Atomman/Generated/DislocationSource.lean contains is listed in docs/C13.md
+# ("Source tie").  Every definition is built from pieces READ from the current source with `ast` (operators,
+# constants, indices, argument order, branch order); lean/Proofs/C13_Source.lean proves each equal to the hand
+# model (`gen_…_eq_model`).  Anything the reader below does not recognise raises TranslationError.
+import ast as _ast
+
+from ..translate import TranslationError, get_function, strip_doc
+
+GENERATED = ['DislocationSource']
+
+_SRC_INIT = 'atomman/defect/Dislocation/__init__.py'
+_SRC_MONO = 'atomman/defect/Dislocation/_monopole.py'
+_SRC_ARR = 'atomman/defect/Dislocation/_periodicarray.py'
+_SRC_PLANE = 'atomman/region/Plane.py'
+_SRC_PLANESET = 'atomman/region/PlaneSet.py'
+_SRC_CYL = 'atomman/region/Cylinder.py'
+_SRC_SHAPE = 'atomman/region/Shape.py'
+_SRC_DISREG = 'atomman/defect/disregistry.py'
+
+
+def _u(node):
+    return _ast.unparse(node)
+
+
+def _fail(what, node=None):
+    raise TranslationError(what + ('' if node is None else ': ' + _u(node)[:120]))
+
+
+def _lstr(s):
+    return '"' + s.replace('\\', '\\\\').replace('"', '\\"').replace('\n', '\\n') + '"'
+
+
+def _lstrs(l):
+    return '[' + ', '.join(_lstr(s) for s in l) + ']'
+
+
+_CMP = {_ast.Gt: '>', _ast.Lt: '<', _ast.GtE: '≥', _ast.LtE: '≤', _ast.Eq: '=', _ast.NotEq: '≠'}
+_CMPNAME = {_ast.Gt: 'Gt', _ast.Lt: 'Lt', _ast.GtE: 'GtE', _ast.LtE: 'LtE', _ast.Eq: 'Eq', _ast.NotEq: 'NotEq'}
+
+
+def _klit(v):
+    """a Python numeric literal as a term of the scalar type K (IntCast / One / Zero / Div only)."""
+    f = F(v)
+    if f == 0:
+        return '(0 : K)'
+    if f == 1:
+        return '(1 : K)'
+    neg = f < 0
+    f = abs(f)
+    num = '(1 : K)' if f.numerator == 1 else f'(({f.numerator} : Int) : K)'
+    s = num if f.denominator == 1 else f'({num} / (({f.denominator} : Int) : K))'
+    return f'(-{s})' if neg else s
+
+
+class _Cx:
+    """Python expression -> Lean term.  env: unparse(sub-expression) -> (lean, type), type in K | Int | Nat | Bool | V.
+    Literals take the type of the other operand (default `dflt`)."""
+
+    def __init__(self, env, dflt='K'):
+        self.env = dict(env)
+        self.dflt = dflt
+
+    def lit(self, v, ty):
+        if ty == 'K':
+            return _klit(v)
+        if isinstance(v, float) and v != int(v):
+            _fail(f'non-integer literal {v!r} in an integer expression')
+        v = int(v)
+        if ty == 'Nat':
+            if v < 0:
+                _fail('negative literal compared with an index')
+            return f'{v}'
+        return f'({v} : Int)' if v >= 0 else f'(-{-v} : Int)'
+
+    def is_lit(self, node):
+        return isinstance(node, _ast.Constant) and isinstance(node.value, (int, float)) \
+            and not isinstance(node.value, bool)
+
+    def pair(self, a, b):
+        """translate two operands that must have the same numeric type."""
+        if self.is_lit(a) and self.is_lit(b):
+            return self.lit(a.value, self.dflt), self.lit(b.value, self.dflt), self.dflt
+        if self.is_lit(a):
+            sb, tb = self.tr(b)
+            return self.lit(a.value, tb), sb, tb
+        if self.is_lit(b):
+            sa, ta = self.tr(a)
+            return sa, self.lit(b.value, ta), ta
+        sa, ta = self.tr(a)
+        sb, tb = self.tr(b)
+        if ta != tb:
+            _fail(f'operands of types {ta} and {tb}', a)
+        return sa, sb, ta
+
+    def tr(self, node):
+        key = _u(node)
+        if key in self.env:
+            return self.env[key]
+        if self.is_lit(node):
+            return self.lit(node.value, self.dflt), self.dflt
+        if isinstance(node, _ast.Constant) and isinstance(node.value, bool):
+            return ('true' if node.value else 'false'), 'Bool'
+        if isinstance(node, _ast.UnaryOp) and isinstance(node.op, _ast.USub):
+            s, t = self.tr(node.operand)
+            return f'(-{s})', t
+        if isinstance(node, _ast.UnaryOp) and isinstance(node.op, _ast.Not):
+            s, t = self.tr(node.operand)
+            if t != 'Bool':
+                _fail('not of a non-boolean', node)
+            return f'(!{s})', 'Bool'
+        if isinstance(node, _ast.BinOp):
+            op = node.op
+            if isinstance(op, (_ast.BitOr, _ast.BitAnd)):
+                sa, ta = self.tr(node.left)
+                sb, tb = self.tr(node.right)
+                if ta != 'Bool' or tb != 'Bool':
+                    _fail('| or & of non-booleans', node)
+                return f'({sa} {"||" if isinstance(op, _ast.BitOr) else "&&"} {sb})', 'Bool'
+            sa, sb, t = self.pair(node.left, node.right)
+            if isinstance(op, _ast.Add):
+                return f'({sa} + {sb})', t
+            if isinstance(op, _ast.Sub):
+                return f'({sa} - {sb})', t
+            if isinstance(op, _ast.Mult):
+                return f'({sa} * {sb})', t
+            if isinstance(op, _ast.Div) and t == 'K':
+                return f'({sa} / {sb})', t
+            if isinstance(op, _ast.FloorDiv) and t == 'Int':
+                if not (self.is_lit(node.right) and node.right.value > 0):
+                    _fail('floor division by a non-literal', node)
+                return f'({sa} / {sb})', t         # Int./ is floor division for a positive divisor
+            if isinstance(op, _ast.Mod) and t == 'Int':
+                if not (self.is_lit(node.right) and node.right.value > 0):
+                    _fail('modulus by a non-literal', node)
+                return f'({sa} % {sb})', t
+            _fail('operator not in the translated subset', node)
+        if isinstance(node, _ast.Compare) and len(node.ops) == 1 and type(node.ops[0]) in _CMP:
+            sa, sb, t = self.pair(node.left, node.comparators[0])
+            if t not in ('K', 'Int', 'Nat'):
+                _fail('comparison of non-numbers', node)
+            return f'decide ({sa} {_CMP[type(node.ops[0])]} {sb})', 'Bool'
+        if isinstance(node, _ast.BoolOp):
+            parts = []
+            for v in node.values:
+                s, t = self.tr(v)
+                if t != 'Bool':
+                    _fail('and/or of a non-boolean', v)
+                parts.append(s)
+            return '(' + (' && ' if isinstance(node.op, _ast.And) else ' || ').join(parts) + ')', 'Bool'
+        _fail('expression not in the translated subset', node)
+
+
+def _is_none_test(node):
+    """`X is None` / `X is not None` -> (name, is_not)."""
+    if isinstance(node, _ast.Compare) and len(node.ops) == 1 and isinstance(node.ops[0], (_ast.Is, _ast.IsNot)) \
+            and isinstance(node.left, _ast.Name) and isinstance(node.comparators[0], _ast.Constant) \
+            and node.comparators[0].value is None:
+        return node.left.id, isinstance(node.ops[0], _ast.IsNot)
+    return None
+
+
+def _signature(fn):
+    a = fn.args
+    if a.vararg or a.kwarg or a.kwonlyargs or a.posonlyargs:
+        _fail(f'{fn.name}: signature with * / ** / keyword-only parameters')
+    names = [x.arg for x in a.args]
+    defaults = [None] * (len(names) - len(a.defaults)) + [_u(d) for d in a.defaults]
+    return [(n, '' if d is None else d) for n, d in zip(names, defaults) if n != 'self']
+
+
+def _lsig(sig):
+    return '[' + ', '.join(f'({_lstr(n)}, {_lstr(d)})' for n, d in sig) + ']'
+
+
+def _find(stmts, pred, what, start=0):
+    for i in range(start, len(stmts)):
+        if pred(stmts[i]):
+            return i
+    _fail(f'statement not found: {what}')
+
+
+def _line_index(node, what):
+    """`self.lineindex` / `self.lineindex - k` (k = 1, 2) as a position of a 3-list (Python negative indexing):
+    returns k."""
+    s = _u(node)
+    if s == 'self.lineindex':
+        return 0
+    if isinstance(node, _ast.BinOp) and isinstance(node.op, _ast.Sub) and _u(node.left) == 'self.lineindex' \
+            and isinstance(node.right, _ast.Constant) and node.right.value in (1, 2):
+        return node.right.value
+    _fail(f'{what}: index is not self.lineindex [- 1|2]', node)
+
+
+def _lidx(k):
+    return 'line' if k == 0 else f'((line + {3 - k}) % 3)'
+
+
+# ---- pieces ------------------------------------------------------------------------------
+
+def _tr_mults(fn, pre, out):
+    """default / checked size multipliers, the amin/bmin/cmin blocks, the (lo, hi) pairs; returns the index after them."""
+    body = strip_doc(fn.body)
+    i0 = _find(body, lambda s: isinstance(s, _ast.If) and _is_none_test(s.test) == ('sizemults', False), 'if sizemults is None')
+    st = body[i0]
+    # default
+    if len(st.body) != 2 or _u(st.body[0].targets[0]) != 'sizemults' or not isinstance(st.body[0].value, _ast.List):
+        _fail(f'{fn.name}: default sizemults', st.body[0])
+    dflt = [e.value for e in st.body[0].value.elts]
+    a1 = st.body[1]
+    if len(dflt) != 3 or not isinstance(a1, _ast.Assign) or _u(a1.targets[0]) != 'sizemults[self.lineindex]' \
+            or not isinstance(a1.value, _ast.Constant):
+        _fail(f'{fn.name}: default sizemults', a1)
+    one = a1.value.value
+    out.append(f'/-- `{_u(st.body[0])}; {_u(a1)}` -/')
+    out.append(f'def {pre}DefaultMults (line : Nat) : V3 Int :=\n  ⟨' + ', '.join(
+        f'if line = {k} then {one} else {dflt[k]}' for k in range(3)) + '⟩\n')
+    # checked: the try block
+    tries = [s for s in st.orelse if isinstance(s, _ast.Try)]
+    if len(tries) != 1:
+        _fail(f'{fn.name}: try block of the sizemults check')
+    tr = tries[0]
+    if len(tr.handlers) != 1 or _u(tr.handlers[0].type) != 'AssertionError' \
+            or not isinstance(tr.handlers[0].body[0], _ast.Raise) \
+            or not _u(tr.handlers[0].body[0].exc).startswith('TypeError('):
+        _fail(f'{fn.name}: the sizemults check must turn AssertionError into TypeError')
+    rest = [s for s in st.orelse if s is not tr]
+    for s in rest:
+        if _u(s) not in ('sizemults = deepcopy(sizemults)', 'sizemults = list(sizemults)'):
+            _fail(f'{fn.name}: statement beside the sizemults check', s)
+    conj = []
+    for a in tr.body:
+        if not isinstance(a, _ast.Assert):
+            _fail(f'{fn.name}: non-assert in the sizemults check', a)
+        conj.append(_tr_mult_assert(a.test, fn.name))
+    out.append('/-- the asserts of the `try:` block in order (`len n`, `isInt i` = `isinstance(sizemults[i], int)`,\n'
+               '    `val i` = `sizemults[i]`); `false` = TypeError. -/')
+    out.append(f'def {pre}CheckMults (line : Nat) (n : Nat) (isInt : Nat → Bool) (val : Nat → Int) : Bool :=\n  '
+               + ' &&\n  '.join(conj) + '\n')
+    # the three minimum blocks
+    pos = i0 + 1
+    for k, (mn, bl) in enumerate((('amin', 'a'), ('bmin', 'b'), ('cmin', 'c'))):
+        s = body[pos]
+        pos += 1
+        if not isinstance(s, _ast.If) or s.orelse:
+            _fail(f'{fn.name}: expected the {mn} block', s)
+        mult = mn[0] + 'mult'
+        env = {mn: ('vmin', 'K'), f'self.rcell.box.{bl}': ('len', 'K'), 'self.lineindex': ('line', 'Nat'),
+               f'sizemults[{k}]': ('cur', 'Int')}
+        cx = _Cx(env, 'K')
+        guard, _ = cx.tr(s.test)
+        lines = []
+        for t in s.body:
+            if isinstance(t, _ast.Assign) and _u(t.targets[0]) == mult:
+                v = t.value
+                if not (isinstance(v, _ast.Call) and _u(v.func) == 'int' and len(v.args) == 1
+                        and isinstance(v.args[0], _ast.Call) and _u(v.args[0].func) == 'np.ceil'
+                        and len(v.args[0].args) == 1):
+                    _fail(f'{fn.name}: {mult} is not int(np.ceil(…))', t)
+                q, tq = cx.tr(v.args[0].args[0])
+                if tq != 'K':
+                    _fail(f'{fn.name}: argument of ceil', t)
+                lines.append(f'let m : Int := ceil {q}')
+                cx.env[mult] = ('m', 'Int')
+            elif isinstance(t, _ast.If) and not t.orelse and len(t.body) == 1:
+                c, _ = cx.tr(t.test)
+                b = t.body[0]
+                if isinstance(b, _ast.AugAssign) and _u(b.target) == mult and isinstance(b.op, _ast.Add):
+                    inc, _ = _Cx(cx.env, 'Int').tr(b.value)
+                    lines.append(f'let m : Int := if {c} then m + {inc} else m')
+                elif isinstance(b, _ast.Assign) and _u(b.targets[0]) == f'sizemults[{k}]':
+                    v, tv = cx.tr(b.value)
+                    if tv != 'Int':
+                        _fail(f'{fn.name}: value stored into sizemults[{k}]', b)
+                    lines.append(f'let cur : Int := if {c} then {v} else cur')
+                else:
+                    _fail(f'{fn.name}: statement of the {mn} block', t)
+            else:
+                _fail(f'{fn.name}: statement of the {mn} block', t)
+        out.append(f'/-- the `{mn}` block: `{_u(s.test)}` … -/')
+        out.append(f'def {pre}Min{k} (ceil : K → Int) (line : Nat) (vmin len : K) (cur : Int) : Int :=\n'
+                   f'  if {guard} then\n    ' + '\n    '.join(lines) + '\n    cur\n  else cur\n')
+    # the (lo, hi) pairs
+    seen = []
+    for _ in range(3):
+        s = body[pos]
+        pos += 1
+        if not (isinstance(s, _ast.Assign) and isinstance(s.targets[0], _ast.Subscript)
+                and _u(s.targets[0].value) == 'sizemults' and isinstance(s.value, _ast.Tuple) and len(s.value.elts) == 2):
+            _fail(f'{fn.name}: expected sizemults[…] = (lo, hi)', s)
+        k = _line_index(s.targets[0].slice, fn.name)
+        cx = _Cx({_u(s.targets[0]): ('s', 'Int')}, 'Int')
+        lo, tl = cx.tr(s.value.elts[0])
+        hi, th = cx.tr(s.value.elts[1])
+        seen.append(k)
+        out.append(f'/-- `{_u(s)}` -/')
+        out.append(f'def {pre}Size{k} (s : Int) : Int × Int := ({lo}, {hi})\n')
+    if sorted(seen) != [0, 1, 2]:
+        _fail(f'{fn.name}: the three (lo, hi) assignments do not cover the three directions')
+    return pos
+
+
+def _tr_mult_assert(test, fname):
+    u = _u(test)
+    if u == 'len(sizemults) == 3':
+        return 'decide (n = 3)'
+    if isinstance(test, _ast.BoolOp) and isinstance(test.op, _ast.And) and len(test.values) == 2:
+        a, b = test.values
+        if isinstance(a, _ast.Call) and _u(a.func) == 'isinstance' and _u(a.args[1]) == 'int' \
+                and isinstance(a.args[0], _ast.Subscript) and _u(a.args[0].value) == 'sizemults' \
+                and isinstance(a.args[0].slice, _ast.Constant) and a.args[0].slice.value in (0, 1, 2):
+            k = a.args[0].slice.value
+            c, _ = _Cx({f'sizemults[{k}]': (f'val {k}', 'Int')}, 'Int').tr(b)
+            return f'(isInt {k} && {c})'
+    if isinstance(test, _ast.Compare) and isinstance(test.left, _ast.BinOp) \
+            and isinstance(test.left.left, _ast.Subscript) and _u(test.left.left.value) == 'sizemults':
+        k = _line_index(test.left.left.slice, fname)
+        c, _ = _Cx({_u(test.left.left): (f'val {_lidx(k)}', 'Int')}, 'Int').tr(test)
+        return c
+    _fail(f'{fname}: assert of the sizemults check not recognised', test)
+
+
+def _tr_shift_given(fn, body, pos, pre, out):
+    s = body[pos]
+    if not (isinstance(s, _ast.If) and not s.orelse and len(s.body) == 1 and isinstance(s.test, _ast.BoolOp)):
+        _fail(f'{fn.name}: expected the shift handling', s)
+    parts = []
+    for v in s.test.values:
+        nt = _is_none_test(v)
+        if nt is None or nt[0] not in ('shift', 'shiftindex'):
+            _fail(f'{fn.name}: test of the shift handling', v)
+        parts.append(f'{nt[0]}.isSome' if nt[1] else f'{nt[0]}.isNone')
+    join = ' || ' if isinstance(s.test.op, _ast.Or) else ' && '
+    call = s.body[0]
+    if not (isinstance(call, _ast.Expr) and isinstance(call.value, _ast.Call) and _u(call.value.func) == 'self.set_shift'
+            and not call.value.keywords):
+        _fail(f'{fn.name}: the shift handling must call self.set_shift positionally', call)
+    args = [_u(a) for a in call.value.args]
+    nxt = body[pos + 1]
+    if _u(nxt) != 'shift = self.shift':
+        _fail(f'{fn.name}: expected `shift = self.shift` after the shift handling', nxt)
+    out.append(f'/-- `{_u(s.test)}`: does the generator call `set_shift` at all -/')
+    out.append(f'def {pre}ShiftGiven {{α β : Type}} (shift : Option α) (shiftindex : Option β) : Bool :=\n  {join.join(parts)}\n')
+    out.append(f'/-- the arguments handed to `self.set_shift(…)`, positionally; afterwards `shift = self.shift` -/')
+    out.append(f'def {pre}SetShiftArgs : List String := {_lstrs(args)}\n')
+    return pos + 2
+
+
+def _tr_center_width(fn, body, pos, pre, out, with_shape):
+    s = body[pos]
+    if not (isinstance(s, _ast.If) and _is_none_test(s.test) in (('center', False), ('center', True))
+            and len(s.body) == 1 and len(s.orelse) == 1):
+        _fail(f'{fn.name}: expected the centre handling', s)
+    isnot = _is_none_test(s.test)[1]
+    none_b, some_b = (s.orelse[0], s.body[0]) if isnot else (s.body[0], s.orelse[0])
+
+    def cval(st, given):
+        if not (isinstance(st, _ast.Assign) and _u(st.targets[0]) == 'center'):
+            _fail(f'{fn.name}: centre handling', st)
+        v = st.value
+        if isinstance(v, _ast.Call) and _u(v.func) in ('np.array', 'np.asarray') and len(v.args) == 1:
+            a = v.args[0]
+            if isinstance(a, _ast.List) and len(a.elts) == 3 and all(isinstance(e, _ast.Constant) for e in a.elts):
+                return '⟨' + ', '.join(_klit(e.value) for e in a.elts) + '⟩'
+            if given and _u(a) == 'center':
+                return 'cv'
+        _fail(f'{fn.name}: centre handling', st)
+    c_none = cval(none_b, False)
+    c_some = cval(some_b, True)
+    s2 = body[pos + 1]
+    if not (isinstance(s2, _ast.If) and not s2.orelse and len(s2.body) == 1 and isinstance(s2.test, _ast.Name)
+            and s2.test.id == 'centerscale'
+            and _u(s2.body[0]) == 'center = self.rcell.box.vector_crystal_to_cartesian(center)'):
+        _fail(f'{fn.name}: expected `if centerscale: center = self.rcell.box.vector_crystal_to_cartesian(center)`', s2)
+    out.append(f'/-- `{_u(s.test)}` … ; `if centerscale:` the row combination of the box vectors of the rotated cell\n'
+               f'    (`vects` = `self.rcell.box.vects`; `Box.vector_crystal_to_cartesian` is C16\'s) -/')
+    out.append(f'def {pre}Center (vects : M3 K) (center : Option (V3 K)) (centerscale : Bool) : V3 K :=\n'
+               f'  let center : V3 K := match center with\n    | none => {c_none}\n    | some cv => {c_some}\n'
+               f'  if centerscale then M3.vecMul center vects else center\n')
+    s3 = body[pos + 2]
+    if not (isinstance(s3, _ast.If) and not s3.orelse and len(s3.body) == 1 and isinstance(s3.test, _ast.Name)
+            and s3.test.id == 'boundaryscale' and isinstance(s3.body[0], _ast.Assign)
+            and _u(s3.body[0].targets[0]) == 'boundarywidth'):
+        _fail(f'{fn.name}: expected the boundaryscale handling', s3)
+    w, tw = _Cx({'boundarywidth': ('width', 'K'), 'self.ucell.box.a': ('ucellA', 'K')}, 'K').tr(s3.body[0].value)
+    out.append(f'/-- `if boundaryscale: {_u(s3.body[0])}` (`ucellA` = `self.ucell.box.a`: the unit cell GIVEN to the class) -/')
+    out.append(f'def {pre}Width (ucellA width : K) (boundaryscale : Bool) : K :=\n  if boundaryscale then {w} else width\n')
+    pos += 3
+    if with_shape:
+        s4 = body[pos]
+        if not (isinstance(s4, _ast.If) and not s4.orelse and isinstance(s4.test, _ast.Compare)
+                and isinstance(s4.test.ops[0], _ast.NotIn) and _u(s4.test.left) == 'boundaryshape'
+                and isinstance(s4.test.comparators[0], (_ast.List, _ast.Tuple))
+                and isinstance(s4.body[0], _ast.Raise) and _u(s4.body[0].exc).startswith('ValueError(')):
+            _fail(f'{fn.name}: expected the boundaryshape refusal', s4)
+        shapes = [e.value for e in s4.test.comparators[0].elts]
+        out.append(f'/-- `{_u(s4.test)}` -> ValueError -/')
+        out.append(f'def {pre}Shapes : List String := {_lstrs(shapes)}\n')
+        pos += 1
+    return pos
+
+
+def _tr_core(fn, body, pos, pre, out, upto):
+    """the statements between the option handling and the boundary step, as normalised text (calls into System /
+    the solver, which are other properties' models), plus the pbc pattern as a definition."""
+    stmts = []
+    while pos < len(body) and not upto(body[pos]):
+        stmts.append(_u(body[pos]))
+        pos += 1
+    out.append(f'/-- the statements of `{fn.name}` between the option handling and the boundary step, in order -/')
+    out.append(f'def {pre}Core : List String :=\n  [' + ',\n   '.join(_lstr(s) for s in stmts) + ']\n')
+    return pos
+
+
+def _tr_pbc(stmts, var, idxname, pre, out, defname):
+    """`var = [c, c, c]; var[self.<idx>] = d` -> V3 Bool."""
+    a = [s for s in stmts if isinstance(s, _ast.Assign) and _u(s.targets[0]) == var and isinstance(s.value, _ast.List)]
+    b = [s for s in stmts if isinstance(s, _ast.Assign) and _u(s.targets[0]) in (f'{var}[self.{idxname}]', f'{var}[{idxname}]')]
+    if len(a) != 1 or len(b) != 1 or len(a[0].value.elts) != 3:
+        _fail(f'{defname}: pbc pattern of {var}')
+    base = [e.value for e in a[0].value.elts]
+    d = b[0].value.value
+    if not all(isinstance(x, bool) for x in base + [d]):
+        _fail(f'{defname}: pbc pattern of {var}')
+    lb = lambda x: 'true' if x else 'false'
+    out.append(f'/-- `{_u(a[0])}; {_u(b[0])}` -/')
+    out.append(f'def {defname} (i : Nat) : V3 Bool :=\n  ⟨' + ', '.join(
+        f'if i = {k} then {lb(d)} else {lb(base[k])}' for k in range(3)) + '⟩\n')
+
+
+def _tr_boundary_step(fn, st, pre, out, shapes):
+    """`if boundarywidth > 0.0:` … re-typing."""
+    if not (isinstance(st, _ast.If) and not st.orelse):
+        _fail(f'{fn.name}: expected the boundary step', st)
+    g, _ = _Cx({'boundarywidth': ('width', 'K')}, 'K').tr(st.test)
+    out.append(f'/-- `if {_u(st.test)}:` the boundary step is taken -/')
+    out.append(f'def {pre}BoundaryGuard (width : K) : Bool := {g}\n')
+    disp = []
+    rest = list(st.body)
+    if shapes:
+        sel = rest.pop(0)
+        node = sel
+        while True:
+            if not (isinstance(node, _ast.If) and isinstance(node.test, _ast.Compare) and isinstance(node.test.ops[0], _ast.Eq)
+                    and _u(node.test.left) == 'boundaryshape' and len(node.body) == 1
+                    and isinstance(node.body[0], _ast.Assign) and _u(node.body[0].targets[0]) == 'shape'
+                    and isinstance(node.body[0].value, _ast.Call) and not node.body[0].value.keywords):
+                _fail(f'{fn.name}: boundary shape dispatch', node)
+            c = node.body[0].value
+            disp.append((node.test.comparators[0].value, _u(c.func), [_u(a) for a in c.args]))
+            if not node.orelse:
+                break
+            if len(node.orelse) != 1:
+                _fail(f'{fn.name}: boundary shape dispatch', node)
+            node = node.orelse[0]
+    else:
+        sel = rest.pop(0)
+        if not (isinstance(sel, _ast.Assign) and _u(sel.targets[0]) == 'shape' and isinstance(sel.value, _ast.Call)):
+            _fail(f'{fn.name}: boundary shape', sel)
+        disp.append(('', _u(sel.value.func), [_u(a) for a in sel.value.args]))
+    out.append(f'/-- which region builder is called for which `boundaryshape`, with which arguments -/')
+    out.append(f'def {pre}Dispatch : List (String × String × List String) :=\n  ['
+               + ', '.join(f'({_lstr(a)}, {_lstr(b)}, {_lstrs(c)})' for a, b, c in disp) + ']\n')
+    if len(rest) != 2:
+        _fail(f'{fn.name}: boundary step has {len(rest)} statements after the region')
+    r = rest[0]
+    if not (isinstance(r, _ast.AugAssign) and isinstance(r.op, _ast.Add) and isinstance(r.target, _ast.Subscript)
+            and isinstance(r.target.slice, _ast.Call) and not r.target.slice.keywords):
+        _fail(f'{fn.name}: re-typing statement', r)
+    out.append(f'/-- `{_u(r)}`: (array re-typed, selector, positions tested, increment) -/')
+    out.append(f'def {pre}Retype : List String := {_lstrs([_u(r.target.value), _u(r.target.slice.func)] + [_u(a) for a in r.target.slice.args] + [_u(r.value)])}\n')
+    out.append(f'def {pre}RetypeSymbols : String := {_lstr(_u(rest[1]))}\n')
+
+
+def _tr_planes_fn(fn, idxname, out, defname):
+    """box_boundary / array_boundary: which planes of `box.planes`, and `plane.point -= width * plane.normal`."""
+    body = strip_doc(fn.body)
+    ret = body[-1]
+    if _u(ret) != 'return PlaneSet(planes)':
+        _fail(f'{fn.name}: must return PlaneSet(planes)', ret)
+    shift = body[-2]
+    if not (isinstance(shift, _ast.For) and _u(shift.target) == 'plane' and _u(shift.iter) == 'planes' and len(shift.body) == 1
+            and isinstance(shift.body[0], _ast.AugAssign) and _u(shift.body[0].target) == 'plane.point'):
+        _fail(f'{fn.name}: plane shift loop', shift)
+    au = shift.body[0]
+    cx = _Cx({'width': ('width', 'K'), 'plane.normal': ('nrm', 'K')}, 'K')     # component-wise: one component shown
+    v, _ = cx.tr(au.value)
+    op = {_ast.Sub: '-', _ast.Add: '+'}.get(type(au.op))
+    if op is None:
+        _fail(f'{fn.name}: plane shift', au)
+    out.append(f'/-- `{_u(au)}` (one component: `pt` of the point, `nrm` of the unit normal) -/')
+    out.append(f'def {defname}Shift (width pt nrm : K) : K := pt {op} {v}\n')
+    first = body[0]
+    if idxname == 'cutindex':
+        if not (isinstance(first, _ast.Assign) and _u(first.targets[0]) == 'planes' and isinstance(first.value, _ast.List)
+                and len(body) == 3):
+            _fail(f'{fn.name}: planes list', first)
+        idx = []
+        for e in first.value.elts:
+            if not (isinstance(e, _ast.Subscript) and _u(e.value) == 'box.planes'):
+                _fail(f'{fn.name}: planes list', e)
+            s, t = _Cx({'self.cutindex': ('cut', 'Nat')}, 'Nat').tr(e.slice)
+            idx.append(s)
+        out.append(f'/-- `{_u(first)}` -/')
+        out.append(f'def {defname}Idx (cut : Nat) : List Nat := [' + ', '.join(idx) + ']\n')
+    else:
+        loop = body[1]
+        if not (_u(first) == 'planes = []' and isinstance(loop, _ast.For) and _u(loop.iter) == 'range(3)'
+                and _u(loop.target) == 'i' and len(body) == 4 and len(loop.body) == 3):
+            _fail(f'{fn.name}: planes loop', loop)
+        skip = loop.body[0]
+        if not (isinstance(skip, _ast.If) and isinstance(skip.body[0], _ast.Continue) and not skip.orelse):
+            _fail(f'{fn.name}: planes loop', skip)
+        cond, _ = _Cx({'i': ('i', 'Nat'), 'self.lineindex': ('line', 'Nat')}, 'Nat').tr(skip.test)
+        idx = []
+        for ap in loop.body[1:]:
+            if not (isinstance(ap, _ast.Expr) and isinstance(ap.value, _ast.Call) and _u(ap.value.func) == 'planes.append'
+                    and isinstance(ap.value.args[0], _ast.Subscript) and _u(ap.value.args[0].value) == 'box.planes'):
+                _fail(f'{fn.name}: planes loop', ap)
+            s, t = _Cx({'i': ('i', 'Nat')}, 'Nat').tr(ap.value.args[0].slice)
+            idx.append(s)
+        out.append(f'/-- `for i in range(3): if {_u(skip.test)}: continue; planes.append(box.planes[…]) …` -/')
+        out.append(f'def {defname}Idx (line : Nat) : List Nat :=\n  ([0, 1, 2].filter fun i => !({cond})).flatMap fun i => ['
+                   + ', '.join(idx) + ']\n')
+
+
+def _tr_regions(out):
+    # Plane.below
+    fn = get_function(cm.source(_SRC_PLANE), 'below')
+    body = strip_doc(fn.body)
+    us = [_u(s) for s in body[:3]]
+    if us != ['pos = np.asarray(pos)', 'normpoint = np.dot(self.normal, self.point)', 'normpos = np.inner(self.normal, pos)']:
+        _fail('Plane.below: head', body[0])
+    sel = body[3]
+    if not (isinstance(sel, _ast.If) and _u(sel.test) == 'inclusive' and isinstance(sel.body[0], _ast.Return)
+            and isinstance(sel.orelse[0], _ast.Return) and len(body) == 4):
+        _fail('Plane.below: selection', sel)
+    cx = _Cx({'normpos': ('normpos', 'K'), 'normpoint': ('normpoint', 'K')}, 'K')
+    out.append('/-- `Plane.below`: `normpos = n̂·pos`, `normpoint = n̂·point` -/')
+    out.append(f'def planeBelow (inclusive : Bool) (normpos normpoint : K) : Bool :=\n'
+               f'  if inclusive then {cx.tr(sel.body[0].value)[0]} else {cx.tr(sel.orelse[0].value)[0]}\n')
+    # Plane.normal setter normalises
+    cls = [n for n in _ast.walk(_ast.parse(cm.source(_SRC_PLANE))) if isinstance(n, _ast.ClassDef) and n.name == 'Plane'][0]
+    setters = [n for n in cls.body if isinstance(n, _ast.FunctionDef) and n.name == 'normal'
+               and any(_u(d) == 'normal.setter' for d in n.decorator_list)]
+    if len(setters) != 1 or _u(setters[0].body[-1]) != 'self.__normal = value / np.linalg.norm(value)':
+        _fail('Plane.normal setter no longer stores value / |value|')
+    # PlaneSet.inside
+    fn = get_function(cm.source(_SRC_PLANESET), 'inside')
+    body = strip_doc(fn.body)
+    us = [_u(s) for s in body]
+    if us != ['pos = np.asarray(pos)', 'insideplanes = np.ones(len(pos), dtype=bool)',
+              'for plane in self.planes:\n    insideplanes = insideplanes & plane.below(pos, inclusive=inclusive)',
+              'return insideplanes']:
+        _fail('PlaneSet.inside is no longer the conjunction of plane.below(pos, inclusive) over the planes')
+    out.append('/-- `PlaneSet.inside`: `np.ones` then `insideplanes & plane.below(pos, inclusive=inclusive)` per plane -/')
+    out.append('def planeSetInside (inclusive : Bool) (below : List (Bool → Bool)) : Bool :=\n'
+               '  below.foldl (fun acc b => acc && b inclusive) true\n')
+    # Shape.outside
+    fn = get_function(cm.source(_SRC_SHAPE), 'outside')
+    sig = dict(_signature(fn))
+    body = strip_doc(fn.body)
+    if len(body) != 1 or _u(body[0]) != 'return ~self.inside(pos, inclusive=not inclusive)' or sig.get('inclusive') != 'False':
+        _fail('Shape.outside is no longer ~inside(pos, inclusive=not inclusive) with inclusive=False by default')
+    out.append('/-- `Shape.outside(pos, inclusive=False)` = `~self.inside(pos, inclusive=not inclusive)` -/')
+    out.append('def shapeOutside (inside : Bool → Bool) (inclusive : Bool := false) : Bool := !(inside (!inclusive))\n')
+    # Cylinder.inside
+    fn = get_function(cm.source(_SRC_CYL), 'inside')
+    body = strip_doc(fn.body)
+    us = [_u(s) for s in body[:3]]
+    if us != ['pos = np.asarray(pos)', 'axis = self.axis',
+              'distfromaxis = np.linalg.norm(np.cross(pos - self.center1, axis), axis=-1)']:
+        _fail('Cylinder.inside: head', body[0])
+    sel = body[3]
+    if not (isinstance(sel, _ast.If) and _u(sel.test) == 'inclusive' and _u(sel.body[0].targets[0]) == 'insidecircle'
+            and _u(sel.orelse[0].targets[0]) == 'insidecircle'):
+        _fail('Cylinder.inside: selection', sel)
+    cx = _Cx({'distfromaxis': ('dist', 'K'), 'self.radius': ('radius', 'K')}, 'K')
+    caps = body[4]
+    if not (isinstance(caps, _ast.If) and _u(caps.test) == 'self.endcaps' and _u(caps.orelse[0]) == 'return insidecircle'):
+        _fail('Cylinder.inside: endcaps', caps)
+    out.append('/-- `Cylinder.inside` without end caps: `dist = |(pos - center1) × axis|` -/')
+    out.append(f'def cylInside (inclusive : Bool) (dist radius : K) : Bool :=\n'
+               f'  if inclusive then {cx.tr(sel.body[0].value)[0]} else {cx.tr(sel.orelse[0].value)[0]}\n')
+    # Cylinder.radius setter
+    cls = [n for n in _ast.walk(_ast.parse(cm.source(_SRC_CYL))) if isinstance(n, _ast.ClassDef) and n.name == 'Cylinder'][0]
+    setters = [n for n in cls.body if isinstance(n, _ast.FunctionDef) and n.name == 'radius'
+               and any(_u(d) == 'radius.setter' for d in n.decorator_list)]
+    asserts = [s for s in setters[0].body if isinstance(s, _ast.Assert)] if len(setters) == 1 else []
+    if len(asserts) != 1:
+        _fail('Cylinder.radius setter: assertion')
+    out.append(f'/-- `{_u(asserts[0])[:60]}` (Cylinder.radius setter) -/')
+    out.append(f'def cylRadiusOk (value : K) : Bool := {_Cx({"value": ("value", "K")}, "K").tr(asserts[0].test)[0]}\n')
+
+
+def _tr_cylinder_boundary(out):
+    fn = get_function(cm.source(_SRC_MONO), 'cylinder_boundary')
+    body = strip_doc(fn.body)
+    by = {}
+    for s in body:
+        if isinstance(s, _ast.Assign) and isinstance(s.targets[0], _ast.Name):
+            by.setdefault(s.targets[0].id, []).append(s)
+    def one(name):
+        if len(by.get(name, [])) != 1:
+            _fail(f'cylinder_boundary: {name} assigned {len(by.get(name, []))} times')
+        return by[name][0]
+    if _u(one('mn').value) != 'np.array([self.dislsol.m, self.dislsol.n])':
+        _fail('cylinder_boundary: mn', one('mn'))
+    rows = []
+    for nm in ('vect1', 'vect2'):
+        v = one(nm).value
+        if not (isinstance(v, _ast.Call) and _u(v.func) == 'mn.dot' and isinstance(v.args[0], _ast.Subscript)
+                and _u(v.args[0].value) == 'box.vects'):
+            _fail(f'cylinder_boundary: {nm}', v)
+        rows.append(_line_index(v.args[0].slice, 'cylinder_boundary'))
+    if _u(one('origin').value) != 'mn.dot(box.origin)':
+        _fail('cylinder_boundary: origin', one('origin'))
+    out.append('/-- rows of `box.vects` projected on (m, n): `vect1`, `vect2` -/')
+    out.append(f'def cylRows (line : Nat) : Nat × Nat := ({_lidx(rows[0])}, {_lidx(rows[1])})\n')
+    # the four boundary lines: (point offset, direction) in terms of vect1 / vect2
+    lines = []
+    for nm in ('bound_bot1', 'bound_bot2', 'bound_top1', 'bound_top2'):
+        v = one(nm).value
+        if not (isinstance(v, _ast.Call) and _u(v.func) == 'line' and len(v.args) == 2):
+            _fail(f'cylinder_boundary: {nm}', v)
+        lines.append([_u(a) for a in v.args])
+    out.append('/-- the two points defining each boundary line `bot1, bot2, top1, top2` -/')
+    out.append('def cylBoundLines : List (List String) :=\n  [' + ', '.join(_lstrs(l) for l in lines) + ']\n')
+    inter = one('intersections').value
+    if not (isinstance(inter, _ast.Call) and _u(inter.func) == 'np.array' and isinstance(inter.args[0], _ast.List)):
+        _fail('cylinder_boundary: intersections', inter)
+    out.append('/-- which normal line meets which boundary line -/')
+    out.append('def cylIntersections : List (List String) :=\n  [' + ', '.join(
+        _lstrs([_u(a) for a in e.args]) for e in inter.args[0].elts) + ']\n')
+    normals = [(_u(one(nm).value)) for nm in ('normal_line_1', 'normal_line_2')]
+    nv = []
+    for nm in ('normal_vect1', 'normal_vect2'):
+        first = by.get(nm, [None])[0]
+        if first is None or len(by[nm]) != 2 or _u(by[nm][1].value) != f'{nm} / np.linalg.norm({nm})':
+            _fail(f'cylinder_boundary: {nm}')
+        nv.append(_u(first.value))
+    out.append('/-- the normal lines start at (0, 0); un-normalised normals of vect1 / vect2 -/')
+    out.append(f'def cylNormals : List String := {_lstrs(normals + nv)}\n')
+    if _u(one('smallest').value) != 'np.min(np.linalg.norm(intersections, axis=1))':
+        _fail('cylinder_boundary: smallest', one('smallest'))
+    r, _ = _Cx({'smallest': ('smallest', 'K'), 'width': ('width', 'K')}, 'K').tr(one('radius').value)
+    out.append(f'/-- `{_u(one("radius"))}` -/')
+    out.append(f'def cylRadius (smallest width : K) : K := {r}\n')
+    ret = body[-1]
+    out.append('/-- the Cylinder returned: axis from `center1` to `center2` -/')
+    out.append(f'def cylReturn : List String := {_lstrs([_u(one("center1").value), _u(one("center2").value), _u(ret)])}\n')
+    # line / intersection as formulas
+    lf = get_function(cm.source(_SRC_MONO), 'line', inside='cylinder_boundary')
+    env = {'p1[0]': ('p1.1', 'K'), 'p1[1]': ('p1.2', 'K'), 'p2[0]': ('p2.1', 'K'), 'p2[1]': ('p2.2', 'K')}
+    cx = _Cx(env, 'K')
+    lb = strip_doc(lf.body)
+    lets = []
+    for s in lb[:-1]:
+        if not (isinstance(s, _ast.Assign) and isinstance(s.targets[0], _ast.Name)):
+            _fail('cylinder_boundary.line', s)
+        v, _ = cx.tr(s.value)
+        lets.append(f'let {s.targets[0].id} : K := {v}')
+        cx.env[s.targets[0].id] = (s.targets[0].id, 'K')
+    if not (isinstance(lb[-1], _ast.Return) and isinstance(lb[-1].value, _ast.Tuple) and len(lb[-1].value.elts) == 3):
+        _fail('cylinder_boundary.line: return', lb[-1])
+    outs = [cx.tr(e)[0] for e in lb[-1].value.elts]
+    out.append('/-- `line(p1, p2)` of cylinder_boundary -/')
+    out.append('def cylLine (p1 p2 : K × K) : K × K × K :=\n  ' + '\n  '.join(lets) + f'\n  ({outs[0]}, {outs[1]}, {outs[2]})\n')
+    jf = get_function(cm.source(_SRC_MONO), 'intersection', inside='cylinder_boundary')
+    env = {f'L{i}[{j}]': (f'L{i}.{["1", "2.1", "2.2"][j]}', 'K') for i in (1, 2) for j in range(3)}
+    cx = _Cx(env, 'K')
+    jb = strip_doc(jf.body)
+    lets = []
+    for s in jb[:-1]:
+        if not (isinstance(s, _ast.Assign) and isinstance(s.targets[0], _ast.Name)):
+            _fail('cylinder_boundary.intersection', s)
+        v, _ = cx.tr(s.value)
+        lets.append(f'let {s.targets[0].id} : K := {v}')
+        cx.env[s.targets[0].id] = (s.targets[0].id, 'K')
+    sel = jb[-1]
+    if not (isinstance(sel, _ast.If) and _u(sel.test) == 'D != 0' and _u(sel.orelse[0]) == 'return False'
+            and _u(sel.body[-1]) == 'return (x, y)' and len(sel.body) == 3):
+        _fail('cylinder_boundary.intersection: selection', sel)
+    x, _ = cx.tr(sel.body[0].value)
+    y, _ = cx.tr(sel.body[1].value)
+    out.append('/-- `intersection(L1, L2)` of cylinder_boundary (`none` = parallel lines: `False`) -/')
+    out.append('def cylIntersection [DecidableEq K] (L1 L2 : K × K × K) : Option (K × K) :=\n  ' + '\n  '.join(lets)
+               + f'\n  if D ≠ 0 then some ({x}, {y}) else none\n')
+
+
+def _tr_set_shift(out):
+    fn = get_function(cm.source(_SRC_INIT), 'set_shift')
+    body = strip_doc(fn.body)
+    if len(body) != 1:
+        _fail('set_shift: more than one top-level statement')
+
+    def leaf(stmts, bound):
+        if len(stmts) == 1 and isinstance(stmts[0], _ast.Raise):
+            e = _u(stmts[0].exc)
+            if not e.startswith('ValueError('):
+                _fail('set_shift: refusal is not a ValueError', stmts[0])
+            return '.error "value"'
+        if len(stmts) == 1 and isinstance(stmts[0], _ast.If):
+            return tree(stmts[0], bound)
+        if len(stmts) == 2 and isinstance(stmts[0], _ast.If) and isinstance(stmts[0].body[0], _ast.Raise) \
+                and not stmts[0].orelse and len(stmts[0].body) == 1 and isinstance(stmts[1], _ast.If):
+            # `if c: raise …` followed by the rest
+            return tree(_ast.If(test=stmts[0].test, body=stmts[0].body, orelse=[stmts[1]]), bound)
+        st = stmts[0]
+        if not (isinstance(st, _ast.Assign) and _u(st.targets[0]) == 'self.__shift'):
+            _fail('set_shift: leaf', st)
+        for extra in stmts[1:]:
+            if _u(extra) != 'assert self.__shift.shape == (3,)':
+                _fail('set_shift: leaf', extra)
+        v = _u(st.value)
+        if v == 'miller.vector_crystal_to_cartesian(shift, self.rcell.box)' and 'shift' in bound:
+            return '.ok (M3.vecMul sv vects)'
+        if v == 'np.asarray(shift)' and 'shift' in bound:
+            return '.ok sv'
+        if v == 'self.shifts[shiftindex]' and 'shiftindex' in bound:
+            return 'idx shifts iv'
+        if isinstance(st.value, _ast.Subscript) and _u(st.value.value) == 'self.shifts' \
+                and isinstance(st.value.slice, _ast.Constant) and isinstance(st.value.slice.value, int):
+            k = st.value.slice.value
+            return f'idx shifts ({k} : Int)' if k >= 0 else f'idx shifts (-{-k} : Int)'
+        _fail('set_shift: value stored', st)
+
+    def tree(node, bound):
+        nt = _is_none_test(node.test)
+        if nt is not None and nt[0] in ('shift', 'shiftindex'):
+            var = {'shift': 'sv', 'shiftindex': 'iv'}[nt[0]]
+            yes, no = (node.body, node.orelse) if nt[1] else (node.orelse, node.body)
+            if not yes or not no:
+                _fail('set_shift: a branch without else', node)
+            return (f'(match {nt[0]} with\n | some {var} => {leaf(yes, bound | {nt[0]})}\n | none => {leaf(no, bound)})')
+        if isinstance(node.test, _ast.Name) and node.test.id == 'shiftscale':
+            if not node.orelse:
+                _fail('set_shift: a branch without else', node)
+            return f'(if shiftscale then {leaf(node.body, bound)} else {leaf(node.orelse, bound)})'
+        _fail('set_shift: test not recognised', node.test)
+
+    t = tree(body[0], frozenset())
+    out.append('/-- `Dislocation.set_shift`: the decision tree in the order of the source (`idx` = Python list indexing of\n'
+               '    `self.shifts`, `vects` = `self.rcell.box.vects`; ValueError = "value") -/')
+    out.append('def setShift (idx : List (V3 K) → Int → Except String (V3 K)) (vects : M3 K) (shifts : List (V3 K))\n'
+               '    (shift : Option (V3 K)) (shiftindex : Option Int) (shiftscale : Bool) : Except String (V3 K) :=\n  ' + t + '\n')
+    # the constructor calls set_shift(shift, shiftindex, shiftscale) after the cells and the shifts
+    init = get_function(cm.source(_SRC_INIT), '__init__')
+    calls = [_u(s) for s in strip_doc(init.body)]
+    want = ['self.__set_cells(ucell, ξ_uvw, setting=conventional_setting, maxindex=5, tol=tol)',
+            'self.__identify_shifts(tol)', 'self.set_shift(shift, shiftindex, shiftscale)']
+    pos = [calls.index(w) if w in calls else -1 for w in want]
+    if -1 in pos or pos != sorted(pos):
+        _fail('__init__: set_cells / identify_shifts / set_shift(shift, shiftindex, shiftscale) in this order')
+    out.append('/-- `__init__`: cells, then the offered shifts, then `set_shift` with the three shift arguments -/')
+    out.append(f'def initCalls : List String := {_lstrs(want)}\n')
+
+
+def _tr_array(out):
+    fn = get_function(cm.source(_SRC_ARR), 'build_disl_array')
+    body = strip_doc(fn.body)
+    by = {}
+    for s in _ast.walk(fn):
+        if isinstance(s, _ast.Assign) and len(s.targets) == 1:
+            by.setdefault(_u(s.targets[0]), []).append(s)
+
+    def one(name, n=1):
+        if len(by.get(name, [])) != n:
+            _fail(f'build_disl_array: {name} assigned {len(by.get(name, []))} times')
+        return by[name][0]
+    # defaults
+    dfl = []
+    for s in body[:2]:
+        nt = _is_none_test(s.test) if isinstance(s, _ast.If) else None
+        if nt is None or nt[1] or len(s.body) != 1:
+            _fail('build_disl_array: defaults', s)
+        v = s.body[0].value
+        if not (isinstance(v, _ast.Call) and _u(v.func) == 'uc.set_in_units' and len(v.args) == 2):
+            _fail('build_disl_array: defaults', s)
+        dfl.append((nt[0], _u(v.args[0]), v.args[1].value))
+    out.append('/-- `if bwidth is None: …`, `if cutoff is None: …` (value, unit) -/')
+    out.append('def arrDefaults : List (String × String × String) := ['
+               + ', '.join(f'({_lstr(a)}, {_lstr(b)}, {_lstr(c)})' for a, b, c in dfl) + ']\n')
+    # tilt
+    tilt = [s for s in body if isinstance(s, _ast.If) and _u(s.test).startswith('burgers.dot(m)')]
+    if len(tilt) != 1:
+        _fail('build_disl_array: tilt')
+    tilt = tilt[0]
+    g, _ = _Cx({'burgers.dot(m)': ('bm', 'K')}, 'K').tr(tilt.test)
+
+    def tl(st):
+        if not (isinstance(st, _ast.AugAssign) and _u(st.target) == 'newvects[motionindex]' and _u(st.value) == 'burgers / 2'
+                and isinstance(st.op, (_ast.Add, _ast.Sub))):
+            _fail('build_disl_array: tilt', st)
+        return 'row - hb' if isinstance(st.op, _ast.Sub) else 'row + hb'
+    out.append(f'/-- `if {_u(tilt.test)}: {_u(tilt.body[0])} else: {_u(tilt.orelse[0])}` (`bm = burgers·m`, `hb = burgers / 2`) -/')
+    out.append(f'def arrTilt (bm : K) (row hb : V3 K) : V3 K :=\n  if {g} then {tl(tilt.body[0])} else {tl(tilt.orelse[0])}\n')
+    _tr_pbc(body, 'newpbc', 'cutindex', 'arr', out, 'arrPbc')
+    # length, sburgers, the strip, the duplicate test
+    if _u(one('length').value) != 'np.abs(vects[motionindex].dot(m))':
+        _fail('build_disl_array: length', one('length'))
+    sb = one('sburgers').value
+    if not (isinstance(sb, _ast.Call) and _u(sb.func) == 'np.abs'):
+        _fail('build_disl_array: sburgers', sb)
+    v, _ = _Cx({'burgers[motionindex]': ('bmot', 'K'), 'length': ('length', 'K')}, 'K').tr(sb.args[0])
+    out.append(f'/-- `{_u(one("sburgers"))}` without the `np.abs` -/')
+    out.append(f'def arrSburgersArg (bmot length : K) : K := {v}\n')
+    ba = one('boundaryatoms').value
+    if not (isinstance(ba, _ast.Subscript) and _u(ba.value) == 'testsystem.atoms'):
+        _fail('build_disl_array: boundaryatoms', ba)
+    v, _ = _Cx({'spos[:, motionindex]': ('s', 'K'), 'sburgers': ('sb', 'K')}, 'K').tr(ba.slice)
+    out.append(f'/-- `{_u(ba.slice)}` -/')
+    out.append(f'def arrInStrip (sb s : K) : Bool := {v}\n')
+    loops = [s for s in body if isinstance(s, _ast.For) and _u(s.iter) == 'enumerate(boundaryatoms.old_id[:-1])']
+    if len(loops) != 1 or _u(loops[0].target) != '(ni, i)':
+        _fail('build_disl_array: duplicate loop')
+    lp = loops[0]
+    if _u(lp.body[0]) != 'js = boundaryatoms.old_id[ni + 1:]':
+        _fail('build_disl_array: duplicate loop compares with the LATER boundary atoms', lp.body[0])
+    hit = lp.body[-1]
+    if not (isinstance(hit, _ast.If) and _u(hit.body[0]) == 'dup_atom_ids.append(i)' and not hit.orelse):
+        _fail('build_disl_array: duplicate test', hit)
+    v, _ = _Cx({'mindistance': ('d', 'K'), 'cutoff': ('cutoff', 'K')}, 'K').tr(hit.test)
+    out.append(f'/-- `if {_u(hit.test)}: dup_atom_ids.append(i)` -/')
+    out.append(f'def arrIsDup (cutoff d : K) : Bool := {v}\n')
+    # expected
+    ex = [s for s in by.get('expected', []) if 'volume' in _u(s.value)]
+    if len(ex) != 1:
+        _fail('build_disl_array: expected')
+    v, _ = _Cx({'base_system.natoms': ('n', 'K'), 'newbox.volume': ('vnew', 'K'), 'base_system.box.volume': ('vold', 'K')},
+               'K').tr(ex[0].value)
+    out.append(f'/-- `{_u(ex[0])}` -/')
+    out.append(f'def arrExpected (n vnew vold : K) : K := {v}\n')
+    chk = [s for s in body if isinstance(s, _ast.If) and _u(s.test) == 'np.isclose(expected, round(expected))']
+    if len(chk) != 1 or _u(chk[0].body[0]) != 'expected = int(round(expected))' or not isinstance(chk[0].orelse[0], _ast.Raise):
+        _fail('build_disl_array: integrality test of expected')
+    mm = [s for s in body if isinstance(s, _ast.If) and isinstance(s.body[0], _ast.Raise) and 'found' in _u(s.test)]
+    if len(mm) != 1:
+        _fail('build_disl_array: found / expected test')
+    v, _ = _Cx({'found': ('found', 'Int'), 'expected': ('expected', 'Int')}, 'Int').tr(mm[0].test)
+    out.append(f'/-- `if {_u(mm[0].test)}: raise ValueError("Deleted atom mismatch …")` -/')
+    out.append(f'def arrMismatch (found expected : Int) : Bool := {v}\n')
+    # the isclose calls with their keywords
+    isc = []
+    for n in _ast.walk(fn):
+        if isinstance(n, _ast.Call) and _u(n.func) == 'np.isclose':
+            isc.append([_u(a) for a in n.args] + [f'{k.arg}={_u(k.value)}' for k in n.keywords])
+    out.append('/-- every `np.isclose(…)` of build_disl_array with its tolerances -/')
+    out.append('def arrIscloseCalls : List (List String) :=\n  [' + ',\n   '.join(_lstrs(c) for c in isc) + ']\n')
+    # surface layers
+    els = [s for s in body if isinstance(s, _ast.If) and _u(s.test) == 'linear']
+    if len(els) != 1:
+        _fail('build_disl_array: linear switch')
+    eb = els[0].orelse
+    ii = [s for s in eb if isinstance(s, _ast.Assign) and _u(s.targets[0]) == 'ii']
+    if len(ii) != 1 or not (isinstance(ii[0].value, _ast.Call) and _u(ii[0].value.func) == 'np.where'):
+        _fail('build_disl_array: surface layers')
+    v, _ = _Cx({'y': ('y', 'K'), 'miny': ('miny', 'K'), 'maxy': ('maxy', 'K'), 'bwidth': ('bw', 'K')}, 'K').tr(ii[0].value.args[0])
+    out.append(f'/-- `{_u(ii[0])}` -/')
+    out.append(f'def arrInLayer (miny maxy bw y : K) : Bool := {v}\n')
+    sw = [s for s in eb if isinstance(s, _ast.If)]
+    if len(sw) != 1 or _u(sw[0].body[0]) != 'miny, maxy = (maxy, miny)':
+        _fail('build_disl_array: miny / maxy swap')
+    v, _ = _Cx({'miny': ('miny', 'K'), 'maxy': ('maxy', 'K')}, 'K').tr(sw[0].test)
+    out.append(f'/-- `if {_u(sw[0].test)}: miny, maxy = maxy, miny` -/')
+    out.append(f'def arrSwap (miny maxy : K) : Bool := {v}\n')
+    out.append('/-- the elastic branch, statement by statement -/')
+    out.append('def arrElastic : List String :=\n  [' + ',\n   '.join(_lstr(_u(s)) for s in eb) + ']\n')
+    out.append(f'def arrLinear : List String := {_lstrs([_u(s) for s in els[0].body])}\n')
+    # the whole statement list (normalised) up to the linear switch
+    k = body.index(els[0])
+    out.append('/-- build_disl_array from the slip-plane test to the trimmed system, statement by statement -/')
+    head = [_u(s) for s in body[2:k] if not isinstance(s, (_ast.For,))]
+    out.append('def arrHead : List String :=\n  [' + ',\n   '.join(_lstr(s) for s in head) + ']\n')
+    out.append(f'def arrTail : List String := {_lstrs([_u(s) for s in body[k + 1:]])}\n')
+    # linear_displacement
+    lf = get_function(cm.source(_SRC_ARR), 'linear_displacement')
+    lb = strip_doc(lf.body)
+    if len(lb) != 1 or not isinstance(lb[0], _ast.Return):
+        _fail('linear_displacement: body')
+    r = lb[0].value
+    if not (isinstance(r, _ast.Call) and _u(r.func) == 'np.outer' and _u(r.args[1]) == 'burgers'):
+        _fail('linear_displacement: np.outer(…, burgers)', r)
+    v, _ = _Cx({'np.sign(pos.dot(n))': ('sgn pn', 'K'), 'pos.dot(m)': ('pm', 'K'), 'length': ('length', 'K')}, 'K').tr(r.args[0])
+    out.append(f'/-- the scalar multiplying `burgers` in `{_u(r)}` (`pn = pos·n`, `pm = pos·m`) -/')
+    out.append(f'def linearFactor (sgn : K → K) (pn pm length : K) : K := {v}\n')
+
+
+def _tr_disreg(out):
+    fn = get_function(cm.source(_SRC_DISREG), 'disregistry')
+    out.append(f'def sigDisregistry : List (String × String) := {_lsig(_signature(fn))}\n')
+    body = strip_doc(fn.body)
+    by = {}
+    for s in body:
+        if isinstance(s, _ast.Assign) and isinstance(s.targets[0], _ast.Name):
+            by[s.targets[0].id] = s.value
+    for nm, ext in (('abovey', 'min'), ('belowy', 'max')):
+        v = by.get(nm)
+        if not (isinstance(v, _ast.Call) and isinstance(v.func, _ast.Attribute) and v.func.attr == ext
+                and isinstance(v.func.value, _ast.Subscript) and _u(v.func.value.value) == 'uniquey'):
+            _fail(f'disregistry: {nm}', v)
+        c, _ = _Cx({'uniquey': ('y', 'K'), 'midy': ('mid', 'K')}, 'K').tr(v.func.value.slice)
+        out.append(f'/-- `{nm} = {_u(v)}`: the selection -/')
+        out.append(f'def disreg{nm.capitalize()}Sel (mid y : K) : Bool := {c}\n')
+    pins = ['allx', 'ally', 'midy', 'uniquey', 'abovex', 'belowx', 'uabovex', 'ubelowx', 'coord', 'abovedisp', 'belowdisp',
+            'disregistry']
+    out.append('/-- the other assignments of disregistry() -/')
+    miss = [p for p in pins if p not in by]
+    if miss:
+        _fail(f'disregistry: assignments {miss} not found')
+    out.append('def disregAssign : List (String × String) :=\n  [' + ',\n   '.join(
+        f'({_lstr(p)}, {_lstr(_u(by[p]))})' for p in pins) + ']\n')
+
+
+def translate():
+    import warnings
+    with warnings.catch_warnings():
+        warnings.simplefilter('ignore', SyntaxWarning)        # escape sequences inside the docstrings of the source
+        return _translate()
+
+
+def _translate():
+    out = ['/- GENERATED by harness/props/c13.py from atomman/defect/Dislocation/{__init__,_monopole,_periodicarray}.py,',
+           '   atomman/region/{Plane,PlaneSet,Cylinder,Shape}.py, atomman/defect/disregistry.py — do not edit.',
+           '   Each definition is assembled from the operators, constants, indices and argument orders read from the',
+           '   current source; lean/Proofs/C13_Source.lean proves them equal to the hand model. -/',
+           'import Atomman.Prelude', 'set_option linter.unusedVariables false', 'namespace Atomman.Gen.Disl',
+           'variable {K : Type} [Add K] [Sub K] [Mul K] [Div K] [Neg K] [Zero K] [One K] [IntCast K]',
+           '  [LT K] [LE K] [DecidableLT K] [DecidableLE K]', '']
+    mono = get_function(cm.source(_SRC_MONO), 'monopole')
+    arr = get_function(cm.source(_SRC_ARR), 'periodicarray')
+    init = get_function(cm.source(_SRC_INIT), '__init__')
+    ss = get_function(cm.source(_SRC_INIT), 'set_shift')
+    bda = get_function(cm.source(_SRC_ARR), 'build_disl_array')
+    for nm, fn in (('sigInit', init), ('sigSetShift', ss), ('sigMonopole', mono), ('sigPeriodicarray', arr),
+                   ('sigBuildDislArray', bda)):
+        out.append(f'/-- parameters of `{fn.name}` with their defaults -/')
+        out.append(f'def {nm} : List (String × String) :=\n  {_lsig(_signature(fn))}\n')
+    _tr_set_shift(out)
+    for fn, pre, with_shape in ((mono, 'mono', True), (arr, 'arr', False)):
+        body = strip_doc(fn.body)
+        pos = _tr_mults(fn, pre, out)
+        pos = _tr_shift_given(fn, body, pos, pre, out)
+        pos = _tr_center_width(fn, body, pos, pre, out, with_shape)
+        pos = _tr_core(fn, body, pos, pre, out,
+                       lambda s: isinstance(s, _ast.If) and _u(s.test).startswith('boundarywidth'))
+        _tr_boundary_step(fn, body[pos], pre, out, with_shape)
+        out.append(f'def {pre}After : List String := {_lstrs([_u(s) for s in body[pos + 1:]])}\n')
+        if with_shape:
+            _tr_pbc(body, 'disl_system.pbc', 'lineindex', pre, out, 'monoPbc')
+    _tr_planes_fn(get_function(cm.source(_SRC_MONO), 'box_boundary'), 'lineindex', out, 'boxBoundary')
+    _tr_planes_fn(get_function(cm.source(_SRC_ARR), 'array_boundary'), 'cutindex', out, 'arrayBoundary')
+    _tr_regions(out)
+    _tr_cylinder_boundary(out)
+    _tr_array(out)
+    _tr_disreg(out)
+    out.append('end Atomman.Gen.Disl\n')
+    return {'DislocationSource': '\n'.join(out)}
+
 
 AXES = ('x', 'y', 'z')
 MN = [(m, n) for m in AXES for n in AXES if m != n]
@@ -1137,6 +2113,8 @@ def _correspond_config(ctx, case, raw, ucell, d, cfg, stats, jobs):
         ctx.disagree('shift:attribute', f'{label}: reading .shift raised {type(e).__name__}: {e}', info)
         return
     qs, center, width = _resolved(d, cfg, ucell)
+    # the whole argument handling of the call (multipliers, shift, centre, width, shape; refusal order; stored shift)
+    _correspond_head(ctx, np, d, cfg, res, ucell, label, info, stats)
     # which shift / centre / width: the model's parameter handling over the configuration's history of calls
     if not _correspond_params(ctx, np, d, cfg, res, ucell, label, info, stats, center, width):
         return
@@ -1313,6 +2291,102 @@ def _correspond_params(ctx, np, d, cfg, res, ucell, label, info, stats, center, 
                      f'differ from the model\'s own conversion {mc.tolist()}, {mw}', info)
         return False
     return True
+
+
+def _mults_wire(cfg):
+    """the `sizemults` argument as the asserts of the generators see it: `-` (not given) or the entries, each an
+    integer value (`isinstance(x, int)`: Python ints and bools) or something else."""
+    sm = cfg.get('sizemults')
+    if sm is None:
+        return '-'
+    given = _sm_form(sm, cfg['sm_form']) if cfg.get('sm_form') else list(sm)
+    return '%d %s' % (len(given), ' '.join(('i%d' % int(x)) if isinstance(x, int) else 'o' for x in given))
+
+
+def _correspond_head(ctx, np, d, cfg, res, ucell, label, info, stats):
+    """driver op `head`: the model's whole argument handling of one generator call (`callHead`: multipliers incl. the
+    minimum lengths, shift arguments, centre, width, shape; refusal class, refusal ORDER and the shift the object holds
+    afterwards) against what the real call did."""
+    if res[0] == 'err' and (res[1].startswith('init ') or res[1] in ('mutated', 'return-value', 'solver')):
+        return
+    trace = list(getattr(d, '_c13_trace', []))
+    before = next((t_[2] for t_ in trace if t_[0] == 'before' and t_[1] == 'ok'), None)
+    if before is None:
+        return
+    ms = getattr(d, '_c13_shifts', None)
+    if ms:
+        S = np.zeros((len(ms), 3))
+        S[:, d.cutindex] = ms
+    else:
+        S = np.asarray(d.shifts, dtype=float)
+    kind = cfg['kind']
+    call = {k: cfg[k] for k in SHIFT_KEYS if cfg.get(k) is not None}
+    lens = [float(d.rcell.box.a), float(d.rcell.box.b), float(d.rcell.box.c)]
+    mins = [float(cfg.get(k, 0.0)) for k in ('amin', 'bmin', 'cmin')]
+    ambiguous = any(v > 0 and len(expected_min_mults(v, L)) > 1 for v, L in zip(mins, lens))
+    c = cfg.get('center')
+    shape = cfg.get('boundaryshape', 'cylinder') if kind == 'mono' else 'box'
+    if not shape or len(str(shape).split()) != 1:
+        return
+    line = 'head %d %d %s %s %s %d %s %s %s %s %s %s %d %s %s %d' % (
+        1 if kind == 'mono' else 0, d.lineindex, cm.frs(np.asarray(d.rcell.box.vects)), cm.frs(np.array(lens)),
+        cm.fr(float(ucell.box.a)), len(S), cm.frs(S), cm.frs(np.asarray(before, dtype=float)), _mults_wire(cfg),
+        cm.frs(np.array(mins)), _args_wire(np, call),
+        '-' if c is None else cm.frs(np.asarray(c, dtype=float)), 1 if cfg.get('centerscale') else 0, shape,
+        cm.fr(float(cfg.get('boundarywidth', 0.0))), 1 if cfg.get('boundaryscale') else 0)
+    out = ctx.driver.ask(line)
+    if out == 'err:format':
+        raise cm.InfraError('head line rejected by the driver: ' + line[:200])
+    stats['head'] = stats.get('head', 0) + 1
+    ctx.stats.case('head:' + kind, (label,), nontrivial=(res[0] == 'ok'))
+    f = _split(out)
+
+    def same(a, b):
+        a, b = np.asarray(a, dtype=float), np.asarray(b, dtype=float)
+        return a.shape == b.shape and float(np.abs(a - b).max()) <= 1e-9 * max(1.0, float(np.abs(b).max()))
+    after = None
+    for t_ in trace:
+        if t_[0] in ('gen', 'after-refusal') and t_[1] == 'ok':
+            after = t_[2]
+    stored = _fl(f[-1])
+    if out.startswith('err:'):
+        cls = f[0][4:].strip()
+        if res[0] != 'err' or res[1] != cls:
+            if cls == 'type' and ambiguous:
+                return
+            ctx.disagree('head:refusal', f'{label}: the model refuses the call with {cls} (argument handling), the '
+                         f'implementation {"returned a system" if res[0] == "ok" else "raised " + str(res[1:3])}', info)
+            return
+        if after is not None and not same(after, stored):
+            ctx.disagree('head:state-after-refusal', f'{label}: after the refused call ({cls}: {res[2]}) the object holds shift '
+                         f'{after}, model {stored} (before the call: {before})', info)
+        return
+    # the model accepts the arguments: the implementation may only refuse later (slip plane, count, radius)
+    if res[0] == 'err':
+        if res[1] in ('type', 'value', 'index'):
+            ctx.disagree('head:refusal', f'{label}: the implementation raised {res[1:3]}, the model accepts the arguments '
+                         f'({out[:80]})', info)
+            return
+        if after is not None and not same(after, stored):
+            ctx.disagree('head:state-after-refusal', f'{label}: after the call refused later ({res[1]}) the object holds shift '
+                         f'{after}, model {stored}', info)
+        return
+    if after is not None and not same(after, stored):
+        ctx.disagree('head:shift', f'{label}: after the call the object holds shift {after}, model {stored}', info)
+        return
+    if ambiguous:
+        stats['exempt_near'] = stats.get('exempt_near', 0) + 1
+        return
+    base = res[1]
+    rv = np.asarray(d.rcell.box.vects, dtype=float)
+    bv = np.asarray(base.box.vects, dtype=float)
+    tot = [int(round(float(np.linalg.norm(bv[i]) / np.linalg.norm(rv[i])))) for i in range(3)]
+    lo = [int(round(float(x))) for x in np.linalg.solve(rv.T, np.asarray(base.box.origin, dtype=float))]
+    real6 = [v for i in range(3) for v in (lo[i], lo[i] + tot[i])]
+    model6 = [int(t) for t in f[0][3:].split()]
+    if real6 != model6:
+        ctx.disagree('head:sizes', f'{label}: the reference system spans the replicas (lo, hi) = {real6} of the rotated cell, '
+                     f'model {model6} (sizemults={cfg.get("sizemults")}, minima {mins}, periods {lens})', info)
 
 
 def _correspond_region(ctx, np, raw, d, cfg, res, label, info, stats):
